@@ -1,3 +1,12 @@
 /* ops_all.h: includes every op family beyond ops_basic and lists their dispatchers. */
 #include "ops_generator.h"
-#define OPS_ALL_FAMILIES ops_generator,
+#include "ops_ellswift.h"
+#include "ops_adaptor.h"
+#include "ops_s2c.h"
+#include "ops_whitelist.h"
+#include "ops_halfagg.h"
+#include "ops_bppp.h"
+#include "ops_rangeproof.h"
+#include "ops_musig.h"
+#include "ops_surjection.h"
+#define OPS_ALL_FAMILIES ops_generator, ops_ellswift, ops_adaptor, ops_s2c, ops_whitelist, ops_halfagg, ops_bppp, ops_rangeproof, ops_musig, ops_surjection,
